@@ -561,10 +561,15 @@ def read (s : Sock) : M (Req × Sock) :=
     | none => pure ({}, r.2)
     | some rl => do
       let hs ← readHeaders r.2
-      let b ← readBody (expectContinue hs.1 hs.2) hs.2
-      let t ← parseTarget rl.res
-      pure ({ method := rl.method, res := rl.res, proto := rl.proto, path := t.path, query := t.query,
-              fragment := t.fragment, parts := t.parts, headers := hs.2, body := b.2 }, b.1)
+      -- a Transfer-Encoding whose last coding is not chunked: no determinable length, the connection is given up
+      -- (method, target, protocol and headers are set, the path is not derived; `serve` drops the closed connection)
+      if hasHeader hs.2 sTransferEncoding && !isChunked (header hs.2 sTransferEncoding) then
+        pure ({ method := rl.method, res := rl.res, proto := rl.proto, headers := hs.2 }, { hs.1 with closed := true })
+      else do
+        let b ← readBody (expectContinue hs.1 hs.2) hs.2
+        let t ← parseTarget rl.res
+        pure ({ method := rl.method, res := rl.res, proto := rl.proto, path := t.path, query := t.query,
+                fragment := t.fragment, parts := t.parts, headers := hs.2, body := b.2 }, b.1)
 
 /-- `HttpRequest::query()` -/
 def queryDic (r : Req) : M Dic := if r.query.length != 0 then parseQuery r.query else pure []
